@@ -826,7 +826,7 @@ fn cmd_check(args: &Args) -> i32 {
         "coverage": {
             "evaluations": evaluations,
             "distinct_nontrivial": distinct,
-            "rule": "one evaluation = one simulated run: value(s) in a JSON document shape (bare, array, struct field, internally tagged / untagged enum, flattened struct, Option, map keys) -> in-memory baseline (print, re-parse, compare, serde in memory) -> printing into the simulated fmt::Write sink -> serde_json::to_writer[_pretty] through the recording shim [and a BufWriter] into the simulated writer and medium -> crash / lost writes / bit flips -> recovery through the planned delivery modes under their read schedules. Enumeration part: for each corpus value every write_str index x {transient, sticky, re-enter, sink panic} in 3 caller shapes, every write-call index x {EINTR, transient, sticky, full, lost, re-enter, sink panic, short(1), short(len-1), EINTR+hard} and a crash at every byte of every call x 4 tail-survival choices under 5-6 knob sets, 4 flush faults, every read-call index x {EINTR, hard, EOF, 1-byte chunk, re-enter} for the 4 reader deliveries (8 deliveries in all), every single bit of the stored record; complete per value. Search part: value (one run in eight a sibling of the previous run's value), knobs, enabled fault kinds and rates, and every stub decision drawn from xoshiro256** seeded by splitmix64(VERIF_SEED, run index); chunks of 512 runs execute on a thread of their own so that the earlier runs of a chunk are an exact, replayable history. A run is non-trivial when at least one fault or re-entrant operation was actually delivered while the phase had in-flight state (write fault with >=1 serializer write issued, formatter fault, read fault on a non-empty medium, a bit flip, a re-entrant operation); distinct = distinct FNV-1a keys over (value spec, knobs, effective schedule of every stub).",
+            "rule": "one evaluation = one simulated run: value(s) in a JSON document shape (bare, array, struct field, internally tagged / untagged enum, flattened struct, Option, map keys) -> in-memory baseline (print, re-parse, compare, serde in memory) -> printing into the simulated fmt::Write sink -> serde_json::to_writer[_pretty] through the recording shim [and a BufWriter] into the simulated writer and medium -> crash / lost writes / bit flips -> recovery through the planned delivery modes under their read schedules -> phase B: the same document through the simulator's second format (binary, self-describing, not human-readable) in memory, then onto a second simulated medium under its own write / flush schedule and back through a simulated reader under its own read schedule (seeded search and replay only; the enumeration runs phase B fault-free). Enumeration part: for each corpus value every write_str index x {transient, sticky, re-enter, sink panic} in 3 caller shapes, every write-call index x {EINTR, transient, sticky, full, lost, re-enter, sink panic, short(1), short(len-1), EINTR+hard} and a crash at every byte of every call x 4 tail-survival choices under 5-6 knob sets, 4 flush faults, every read-call index x {EINTR, hard, EOF, 1-byte chunk, re-enter} for the 4 reader deliveries (8 deliveries in all), every single bit of the stored record; complete per value. Search part: value (one run in eight a sibling of the previous run's value), knobs, enabled fault kinds and rates, and every stub decision drawn from xoshiro256** seeded by splitmix64(VERIF_SEED, run index); chunks of 512 runs execute on a thread of their own so that the earlier runs of a chunk are an exact, replayable history. A run is non-trivial when at least one fault or re-entrant operation was actually delivered while the phase had in-flight state (write fault with >=1 serializer write issued, formatter fault, read fault on a non-empty medium, a bit flip, a re-entrant operation); distinct = distinct FNV-1a keys over (value spec, knobs, effective schedule of every stub).",
             "samples": samples,
             "exhaustive": false,
             "enumeration": {
@@ -899,7 +899,7 @@ fn cmd_check(args: &Args) -> i32 {
                     "serde, serde_json to_writer/to_writer_pretty/to_value/from_reader/from_slice/from_str/from_value, serde derive (struct field, internally tagged / untagged enum, flatten, Option, map keys), Deserialize::deserialize_in_place",
                     "std::io::Write::write_all, std::io::BufWriter, std::io::BufReader, core::fmt::write"
                 ],
-                "stubs": ["SimWriter (io::Write)", "SimReader (io::Read)", "SimFmtSink (fmt::Write)", "Disk (durable prefix + volatile tail, crash, lost write, bit flips)", "process crash/restart", "re-entrant caller (a sink/reader that itself uses the crate)"],
+                "stubs": ["SimWriter (io::Write)", "SimReader (io::Read)", "SimFmtSink (fmt::Write)", "Disk (durable prefix + volatile tail, crash, lost write, bit flips)", "process crash/restart", "re-entrant caller (a sink/reader that itself uses the crate)", "simpack (sim/src/pack.rs): the simulator's own second serde format - binary, self-describing, not human-readable, streaming Serializer over io::Write and Deserializer over io::Read; self-tested at process start; used by phase B of every run, counters pack_*"],
                 "absent": ["scheduler for tasks (the crate has no threads, tasks or shared state; worker threads only parallelise independent chunks)", "network", "clock"]
             },
             "known_findings_announced": announced,
